@@ -1,6 +1,6 @@
 //! C19 — endpoint parsing is total, strict and round-trips (engine E5).
 //!
-//! Bounded-exhaustive enumeration of strings over a 16-symbol alphabet, checked
+//! Bounded-exhaustive enumeration of strings over an 18-symbol alphabet, checked
 //! against an independent reference parser (no regex; first "://" split, last
 //! colon split, std's address parsers define "literal").
 
@@ -12,8 +12,8 @@ use zeromq::{Endpoint, Host};
 use zvcore::evidence::{Check, Tier};
 use zvcore::world;
 
-const SIGMA: [&str; 16] = [
-    "t", "c", "p", "i", ":", "/", "[", "]", ".", "0", "1", "9", "a", "\n", "é", "٣",
+const SIGMA: [&str; 18] = [
+    "t", "c", "p", "i", ":", "/", "[", "]", ".", "0", "1", "9", "a", "\n", "é", "٣", "+", "-",
 ];
 
 #[derive(Debug, Clone, PartialEq)]
@@ -357,7 +357,7 @@ pub fn run(tier: Tier, replay: Option<String>) -> i32 {
     ck.cov(
         "rule",
         format!(
-            "all strings over the 16-symbol alphabet {:?} up to length {} ({}), the 5 prefixes {:?} followed by all strings up to length {} ({}), and a {}-string scheme x host x port product; all inputs are distinct by construction; non-trivial = the library accepted the string (so value comparison, address classification, Display bracket rule and parse-format-parse were all exercised)",
+            "all strings over the 18-symbol alphabet {:?} up to length {} ({}), the 5 prefixes {:?} followed by all strings up to length {} ({}), and a {}-string scheme x host x port product; all inputs are distinct by construction; non-trivial = the library accepted the string (so value comparison, address classification, Display bracket rule and parse-format-parse were all exercised)",
             SIGMA, whole_len, a_count, prefixes, pre_len, b_count, fam.len()
         ),
     );
